@@ -27,6 +27,7 @@ Orig == 1..NRows
 (* a database image: format number + tables; "old" = version_index with the v1 schema, "new" = version_index_new (v2   *)
 (* schema), "cur" = version_index with the v2 schema; absent tables are not in the domain                            *)
 Tables == {"old", "new", "cur"}
+\* @type: { fmt: Int, tabs: Str -> Set(Int) };
 EmptyDb == [fmt |-> 1, tabs |-> [t \in {"old"} |-> Orig]]
 
 VARIABLES D,        \* durable image
@@ -39,8 +40,12 @@ VARIABLES D,        \* durable image
 
 vars == <<D, W, inTxn, backup, pc, crashes, outcome>>
 
+\* (the type comments below are for Apalache, see MC_Migration.tla; TLC ignores them)
+\* @type: ({ fmt: Int, tabs: Str -> Set(Int) }, Str) => Bool;
 Has(db, t) == t \in DOMAIN db.tabs
+\* @type: ({ fmt: Int, tabs: Str -> Set(Int) }, Str, Set(Int)) => { fmt: Int, tabs: Str -> Set(Int) };
 With(db, t, rows) == [db EXCEPT !.tabs = [x \in DOMAIN db.tabs \cup {t} |-> IF x = t THEN rows ELSE db.tabs[x]]]
+\* @type: ({ fmt: Int, tabs: Str -> Set(Int) }, Str) => { fmt: Int, tabs: Str -> Set(Int) };
 Without(db, t) == [db EXCEPT !.tabs = [x \in DOMAIN db.tabs \ {t} |-> db.tabs[x]]]
 
 Init == /\ D = EmptyDb /\ W = EmptyDb /\ inTxn = FALSE /\ backup = "absent" /\ pc = "open" /\ crashes = 0
